@@ -637,7 +637,10 @@ func (ndb *nodeDB) DeleteVersionsFrom(fromVersion int64) error {
 		}
 		// Update the legacy latest version forcibly
 		ndb.legacyLatestVersion = 0
-		fromVersion = legacyLatestVersion + 1
+		// fromVersion is not raised to legacyLatestVersion+1: a commit without writes on a legacy
+		// root stores that root in the new format under its own (legacy) version, and such a
+		// record of a deleted version must go as well - otherwise it is taken for the latest
+		// version on the next start.
 	}
 
 	// Delete the nodes for new format
